@@ -733,6 +733,8 @@ impl FrontendInternal {
         self.check_state()?;
         let hdr = self.new_request_header(code, 0);
         self.main_sock.send_header(&hdr, fds)?;
+        #[cfg(feature = "verif-hooks")]
+        super::verif::hold("fe.after_send");
         Ok(hdr)
     }
 
@@ -749,6 +751,8 @@ impl FrontendInternal {
 
         let hdr = self.new_request_header(code, mem::size_of::<T>() as u32);
         self.main_sock.send_message(&hdr, msg, fds)?;
+        #[cfg(feature = "verif-hooks")]
+        super::verif::hold("fe.after_send");
         Ok(hdr)
     }
 
@@ -773,6 +777,8 @@ impl FrontendInternal {
         let hdr = self.new_request_header(code, len as u32);
         self.main_sock
             .send_message_with_payload(&hdr, msg, payload, fds)?;
+        #[cfg(feature = "verif-hooks")]
+        super::verif::hold("fe.after_send");
         Ok(hdr)
     }
 
@@ -795,6 +801,8 @@ impl FrontendInternal {
         let msg = VhostUserU64::new(queue_index as u64);
         let hdr = self.new_request_header(code, mem::size_of::<VhostUserU64>() as u32);
         self.main_sock.send_message(&hdr, &msg, Some(&[fd]))?;
+        #[cfg(feature = "verif-hooks")]
+        super::verif::hold("fe.after_send");
         Ok(hdr)
     }
 
